@@ -138,8 +138,18 @@ type ListConfig struct {
 type NumberingManager struct {
 	nextAbstractNumID int
 	nextNumID         int
-	abstractNums      map[string]*AbstractNum
+	abstractNums      map[abstractNumKey]*AbstractNum
 	numInstances      map[string]*NumInstance
+}
+
+// abstractNumKey 抽象编号定义的缓存键：完整的请求（类型、符号、级别、起始编号）。
+// 使用结构体而不是拼接的字符串，这样不同的请求不会得到相同的键
+// （类型或符号中含有分隔符时，拼接的字符串可能相同）。
+type abstractNumKey struct {
+	Type         ListType
+	BulletSymbol BulletType
+	IndentLevel  int
+	StartNumber  int
 }
 
 // clone 复制编号管理器（计数器和注册表；已注册的定义创建后不再修改，可以共享）
@@ -150,7 +160,7 @@ func (m *NumberingManager) clone() *NumberingManager {
 	c := &NumberingManager{
 		nextAbstractNumID: m.nextAbstractNumID,
 		nextNumID:         m.nextNumID,
-		abstractNums:      make(map[string]*AbstractNum, len(m.abstractNums)),
+		abstractNums:      make(map[abstractNumKey]*AbstractNum, len(m.abstractNums)),
 		numInstances:      make(map[string]*NumInstance, len(m.numInstances)),
 	}
 	for k, v := range m.abstractNums {
@@ -169,7 +179,7 @@ func (d *Document) getNumberingManager() *NumberingManager {
 		d.numberingManager = &NumberingManager{
 			nextAbstractNumID: 0,
 			nextNumID:         1,
-			abstractNums:      make(map[string]*AbstractNum),
+			abstractNums:      make(map[abstractNumKey]*AbstractNum),
 			numInstances:      make(map[string]*NumInstance),
 		}
 	}
@@ -184,6 +194,19 @@ func (d *Document) AddListItem(text string, config *ListConfig) *Paragraph {
 			BulletSymbol: BulletTypeDot,
 			IndentLevel:  0,
 		}
+	}
+
+	// 缩进级别超出0-8时调整到有效范围（每个编号定义只有9个级别，
+	// 超出范围的ilvl在编号定义中找不到对应的级别）
+	if config.IndentLevel < 0 || config.IndentLevel > 8 {
+		Warnf("列表缩进级别应在0-8之间，已调整为有效范围")
+		adjusted := *config
+		if adjusted.IndentLevel < 0 {
+			adjusted.IndentLevel = 0
+		} else {
+			adjusted.IndentLevel = 8
+		}
+		config = &adjusted
 	}
 
 	// 确保编号管理器已初始化
@@ -297,8 +320,13 @@ func (d *Document) initializeNumbering() {
 func (d *Document) getOrCreateNumbering(config *ListConfig) string {
 	manager := d.getNumberingManager()
 
-	// 生成抽象编号键
-	abstractKey := fmt.Sprintf("%s_%s_%d", config.Type, config.BulletSymbol, config.IndentLevel)
+	// 生成抽象编号键（包含起始编号：起始编号不同的请求不能共用同一个定义）
+	abstractKey := abstractNumKey{
+		Type:         config.Type,
+		BulletSymbol: config.BulletSymbol,
+		IndentLevel:  config.IndentLevel,
+		StartNumber:  config.StartNumber,
+	}
 
 	// 检查是否已存在抽象编号
 	var abstractNum *AbstractNum
